@@ -17,7 +17,7 @@ from vv.ref import updaters as ref
 from vv.util import deq, nest, put, getp
 
 ID = 'C08'
-CASES = {'quick': 400, 'thorough': 8000}
+CASES = {'quick': 1000, 'thorough': 80000}
 RULE = ('Hypothesis draws 1..5 variables at distinct paths (depth 1..3 below one '
         'port), each from a family: numeric (int, dyadic float, int/float '
         'numpy arrays) with updater default/accumulate/set/null/'
